@@ -47,7 +47,7 @@ func outputNodeTokens(root *html.Node, skipPlaceholders bool) []string {
 		if skipPlaceholders && n.Type == html.ElementNode && strings.Contains(getAttr(n, "class"), "embed-placeholder") {
 			return
 		}
-		if n.Type == html.TextNode {
+		if n.Type == html.TextNode || n.Type == html.CommentNode {
 			out = append(out, tokensOf(n.Data)...)
 		}
 		for c := n.FirstChild; c != nil; c = c.NextSibling {
@@ -534,7 +534,9 @@ func oracleC07(rep *Report, x *distilled, replay interface{}) (deep int, partial
 	partial = kept > 0 && dropped > 0
 	// retained data tables keep all rows and cells
 	var tables []*html.Node
-	findAll(x.Res.Node, func(n *html.Node) bool { return n.Type == html.ElementNode && n.Data == "table" && !hasAncestorTag(n, "table") }, &tables)
+	findAll(x.Res.Node, func(n *html.Node) bool {
+		return n.Type == html.ElementNode && n.Data == "table" && !hasAncestorTag(n, "table")
+	}, &tables)
 	var srcTables []*html.Node
 	findAll(x.D.Root, func(n *html.Node) bool { return n.Type == html.ElementNode && n.Data == "table" }, &srcTables)
 	for _, ot := range tables {
@@ -549,7 +551,9 @@ func oracleC07(rep *Report, x *distilled, replay interface{}) (deep int, partial
 			}
 			count := func(root *html.Node, visibleOnly bool) (rows, cells int) {
 				var es []*html.Node
-				findAll(root, func(n *html.Node) bool { return n.Type == html.ElementNode && (n.Data == "tr" || n.Data == "td" || n.Data == "th") }, &es)
+				findAll(root, func(n *html.Node) bool {
+					return n.Type == html.ElementNode && (n.Data == "tr" || n.Data == "td" || n.Data == "th")
+				}, &es)
 				for _, e := range es {
 					if visibleOnly {
 						if c, _ := hiddenClass(e.FirstChild); e.FirstChild != nil && strings.HasPrefix(c, "hidden:") {
@@ -630,7 +634,9 @@ func oracleC09(rep *Report, x *distilled, dump *distiller.VerifExtractResult, re
 	// ContentImages: in order, each the src or a srcset candidate of an img/source in the output
 	var cands []string
 	var els []*html.Node
-	findAll(x.Res.Node, func(n *html.Node) bool { return n.Type == html.ElementNode && (n.Data == "img" || n.Data == "source") && !inPlaceholder(n) }, &els)
+	findAll(x.Res.Node, func(n *html.Node) bool {
+		return n.Type == html.ElementNode && (n.Data == "img" || n.Data == "source") && !inPlaceholder(n)
+	}, &els)
 	for _, e := range els {
 		if s := getAttr(e, "src"); s != "" {
 			cands = append(cands, s)
